@@ -88,26 +88,26 @@ pub fn piece_of(k: usize) -> Piece {
 /// arbitrary observable position (no assumptions)
 pub fn any_raw() -> Raw {
     Raw {
-        w: kani::any(),
-        b: kani::any(),
-        ep: kani::any(),
-        rights: kani::any(),
+        w: crate::verif_ref::vany(),
+        b: crate::verif_ref::vany(),
+        ep: crate::verif_ref::vany(),
+        rights: crate::verif_ref::vany(),
     }
 }
 
 /// arbitrary auxiliary state; `wide_counters` lifts the "counters below their type maximum" bound
 pub fn any_aux(turn_white: bool) -> Aux {
-    let ep_prefix: u64 = kani::any();
+    let ep_prefix: u64 = crate::verif_ref::vany();
     kani::assume(rf::at_most_one(ep_prefix));
-    let rights_prefix: u8 = kani::any();
+    let rights_prefix: u8 = crate::verif_ref::vany();
     kani::assume(rights_prefix < 16);
     Aux {
         ep_prefix,
         rights_prefix,
-        half: kani::any(),
-        full: kani::any(),
-        hash: kani::any(),
-        max_seen: kani::any(),
+        half: crate::verif_ref::vany(),
+        full: crate::verif_ref::vany(),
+        hash: crate::verif_ref::vany(),
+        max_seen: crate::verif_ref::vany(),
         turn_white,
     }
 }
@@ -130,10 +130,10 @@ pub fn any_repinv(white_to_move: bool) -> Raw {
 
 /// symbolic reference move of a concrete kind
 pub fn any_rmove(kind: u8) -> RMove {
-    let from: u8 = kani::any();
-    let to: u8 = kani::any();
+    let from: u8 = crate::verif_ref::vany();
+    let to: u8 = crate::verif_ref::vany();
     kani::assume(from < 64 && to < 64);
-    let promo: u8 = kani::any();
+    let promo: u8 = crate::verif_ref::vany();
     kani::assume(promo >= 1 && promo <= 4);
     RMove { kind, from, to, promo: promo as usize }
 }
@@ -173,7 +173,7 @@ pub const M_C16: u8 = 16; // counters
 
 fn step(white: bool, kind: u8, mode: u8) {
     let x = any_repinv(white);
-    let a = any_aux(kani::any());
+    let a = any_aux(crate::verif_ref::vany());
     if mode == M_C16 {
         // move counter: anything up to 100 000 plies (the longest legal game is < 18 000 plies);
         // half-move clock: a legal game is over long before 200 reversible plies in a row
@@ -205,7 +205,7 @@ fn step(white: bool, kind: u8, mode: u8) {
         assert!(y.rights == want.rights, "castling rights lost exactly as the rules say");
         assert!(board.turn() == turn0, "apply never flips the turn");
         // observable through the public accessor too
-        let s: u8 = kani::any();
+        let s: u8 = crate::verif_ref::vany();
         kani::assume(s < 64);
         let g = board.get(Bitboard(rf::bit(s)));
         let wk = rf::kind_at(&want.w, rf::bit(s));
@@ -230,7 +230,7 @@ fn step(white: bool, kind: u8, mode: u8) {
         assert!(rf::ep_consistent(&y, white), "ep target consistent with the double step just made");
         assert!(y.occ_w().count_ones() <= 16 && y.occ_b().count_ones() <= 16);
         // square-by-square contents agree with summaries
-        let s: u8 = kani::any();
+        let s: u8 = crate::verif_ref::vany();
         kani::assume(s < 64);
         let sq = Bitboard(rf::bit(s));
         assert!(board.is_occupied(sq) == board.get(sq).is_some(), "is_occupied agrees with get");
@@ -352,7 +352,7 @@ step_harness!(c16_step_ooo_b, false, 4, M_C16);
 #[kani::unwind(8)]
 fn witness_step_std_w() {
     let x = any_repinv(true);
-    let a = any_aux(kani::any());
+    let a = any_aux(crate::verif_ref::vany());
     kani::assume(a.half[1] < 255 && a.full < 255);
     let m = any_rmove(0);
     kani::assume(rf::legalish(&x, true, &m));
@@ -389,15 +389,15 @@ fn c12_base_start_and_new() {
 #[kani::unwind(8)]
 fn c12_put_remove_step() {
     let x = any_disjoint();
-    let a = any_aux(kani::any());
+    let a = any_aux(crate::verif_ref::vany());
     let mut board = Board::verif_from_raw(&x, &a);
-    let s: u8 = kani::any();
+    let s: u8 = crate::verif_ref::vany();
     kani::assume(s < 64);
     let sq = Bitboard(rf::bit(s));
-    let k: u8 = kani::any();
+    let k: u8 = crate::verif_ref::vany();
     kani::assume(k < 6);
-    let white: bool = kani::any();
-    if kani::any() {
+    let white: bool = crate::verif_ref::vany();
+    if crate::verif_ref::vany() {
         let r = board.put(sq, piece_of(k as usize), color(white));
         let y = board.verif_raw();
         assert!(r.is_ok() == (x.occ() & sq.0 == 0), "put succeeds iff the square was empty");
@@ -444,8 +444,8 @@ fn zc(r: u8) -> u64 {
 #[kani::proof]
 #[kani::unwind(4)]
 fn h1_constants_distinct() {
-    let i: u16 = kani::any();
-    let j: u16 = kani::any();
+    let i: u16 = crate::verif_ref::vany();
+    let j: u16 = crate::verif_ref::vany();
     kani::assume(i < 848 && j < 848 && i != j);
     let key = |id: u16| -> u64 {
         if id < 768 {
@@ -465,18 +465,18 @@ fn h1_constants_distinct() {
 #[kani::proof]
 #[kani::unwind(4)]
 fn h2_toggles_exact() {
-    let h: u64 = kani::any();
+    let h: u64 = crate::verif_ref::vany();
     let mut pi = PositionInfo::verif_from_raw(h, [1, 1]);
-    let s: u8 = kani::any();
+    let s: u8 = crate::verif_ref::vany();
     kani::assume(s < 64);
-    let k: u8 = kani::any();
+    let k: u8 = crate::verif_ref::vany();
     kani::assume(k < 6);
-    let white: bool = kani::any();
+    let white: bool = crate::verif_ref::vany();
     pi.update_zobrist_hash_toggle_piece(Bitboard(rf::bit(s)), piece_of(k as usize), color(white));
     assert!(pi.current_position_hash() == h ^ ZOBRIST_PIECES_TABLE[k as usize][s as usize][white as usize]);
     pi.update_zobrist_hash_toggle_piece(Bitboard(rf::bit(s)), piece_of(k as usize), color(white));
     assert!(pi.current_position_hash() == h);
-    let r: u8 = kani::any();
+    let r: u8 = crate::verif_ref::vany();
     kani::assume(r < 16);
     pi.update_zobrist_hash_toggle_castling_rights(r);
     assert!(pi.current_position_hash() == h ^ ZOBRIST_CASTLING_RIGHTS_TABLE[r as usize]);
@@ -494,12 +494,12 @@ fn h2_toggles_exact() {
 #[kani::proof]
 #[kani::unwind(4)]
 fn h2_piece_toggle_injective() {
-    let s1: u8 = kani::any();
-    let s2: u8 = kani::any();
-    let k1: u8 = kani::any();
-    let k2: u8 = kani::any();
-    let c1: bool = kani::any();
-    let c2: bool = kani::any();
+    let s1: u8 = crate::verif_ref::vany();
+    let s2: u8 = crate::verif_ref::vany();
+    let k1: u8 = crate::verif_ref::vany();
+    let k2: u8 = crate::verif_ref::vany();
+    let c1: bool = crate::verif_ref::vany();
+    let c2: bool = crate::verif_ref::vany();
     kani::assume(s1 < 64 && s2 < 64 && k1 < 6 && k2 < 6);
     let mut p1 = PositionInfo::verif_from_raw(0, [1, 1]);
     let mut p2 = PositionInfo::verif_from_raw(0, [1, 1]);
@@ -517,23 +517,23 @@ fn h2_piece_toggle_injective() {
 /// which: 0 put, 1 remove, 2 push_ep, 3 pop_ep, 4 lose_rights, 5 pop_rights, 6 preserve_rights
 fn h3(which: u8) {
     let x = any_disjoint();
-    let a = any_aux(kani::any());
+    let a = any_aux(crate::verif_ref::vany());
     let mut board = Board::verif_from_raw(&x, &a);
     let h0 = board.current_position_hash();
     assert!(h0 == a.hash);
     match which {
         0 => {
-            let s: u8 = kani::any();
+            let s: u8 = crate::verif_ref::vany();
             kani::assume(s < 64);
-            let k: u8 = kani::any();
+            let k: u8 = crate::verif_ref::vany();
             kani::assume(k < 6);
-            let white: bool = kani::any();
+            let white: bool = crate::verif_ref::vany();
             let r = board.put(Bitboard(rf::bit(s)), piece_of(k as usize), color(white));
             let want = if r.is_ok() { zp(k as usize, rf::bit(s), white) } else { 0 };
             assert!(board.current_position_hash() == h0 ^ want, "put toggles exactly the new piece's key");
         }
         1 => {
-            let s: u8 = kani::any();
+            let s: u8 = crate::verif_ref::vany();
             kani::assume(s < 64);
             let sq = rf::bit(s);
             let wk = rf::kind_at(&x.w, sq);
@@ -543,7 +543,7 @@ fn h3(which: u8) {
             assert!(board.current_position_hash() == h0 ^ want, "remove toggles exactly the removed piece's key");
         }
         2 => {
-            let t: u64 = kani::any();
+            let t: u64 = crate::verif_ref::vany();
             kani::assume(rf::at_most_one(t));
             board.push_en_passant_target(Bitboard(t));
             assert!(board.peek_en_passant_target().0 == t);
@@ -555,7 +555,7 @@ fn h3(which: u8) {
             assert!(board.current_position_hash() == h0 ^ ze(x.ep) ^ ze(a.ep_prefix), "pop: popped target's key out, uncovered target's key in");
         }
         4 => {
-            let l: u8 = kani::any();
+            let l: u8 = crate::verif_ref::vany();
             kani::assume(l < 16);
             let n = board.lose_castle_rights(l);
             assert!(n == x.rights & !l && board.peek_castle_rights() == n);
@@ -631,7 +631,7 @@ fn feature_holds(x: &Raw, id: u16) -> bool {
 
 fn hmove(white: bool, kind: u8) {
     let x = any_repinv(white);
-    let a = any_aux(kani::any());
+    let a = any_aux(crate::verif_ref::vany());
     kani::assume(a.half[1] < 255 && a.full < 255);
     let m = any_rmove(kind);
     kani::assume(rf::legalish(&x, white, &m));
@@ -640,7 +640,7 @@ fn hmove(white: bool, kind: u8) {
     kani_ghost::reset();
     em.apply(&mut board).unwrap();
     let y = board.verif_raw();
-    let id: u16 = kani::any();
+    let id: u16 = crate::verif_ref::vany();
     assert!(!kani_ghost::overflowed(), "ghost log large enough / toggle arguments well-formed");
     assert!(
         kani_ghost::parity(id) == (feature_holds(&x, id) != feature_holds(&y, id)),
@@ -687,19 +687,19 @@ hmove_harness!(hmove_ooo_b, false, 4);
 #[kani::stub(crate::board::position_info::PositionInfo::update_zobrist_hash_toggle_castling_rights, crate::board::position_info::PositionInfo::ghost_toggle_castle)]
 fn hsetup_any_mutator() {
     let x = any_disjoint();
-    let a = any_aux(kani::any());
+    let a = any_aux(crate::verif_ref::vany());
     let mut board = Board::verif_from_raw(&x, &a);
     kani_ghost::reset();
-    let which: u8 = kani::any();
+    let which: u8 = crate::verif_ref::vany();
     kani::assume(which < 7);
-    let s: u8 = kani::any();
+    let s: u8 = crate::verif_ref::vany();
     kani::assume(s < 64);
-    let k: u8 = kani::any();
+    let k: u8 = crate::verif_ref::vany();
     kani::assume(k < 6);
-    let white: bool = kani::any();
-    let t: u64 = kani::any();
+    let white: bool = crate::verif_ref::vany();
+    let t: u64 = crate::verif_ref::vany();
     kani::assume(rf::at_most_one(t));
-    let l: u8 = kani::any();
+    let l: u8 = crate::verif_ref::vany();
     kani::assume(l < 16);
     match which {
         0 => { let _ = board.put(Bitboard(rf::bit(s)), piece_of(k as usize), color(white)); }
@@ -711,7 +711,7 @@ fn hsetup_any_mutator() {
         _ => { board.preserve_castle_rights(); }
     }
     let y = board.verif_raw();
-    let id: u16 = kani::any();
+    let id: u16 = crate::verif_ref::vany();
     assert!(!kani_ghost::overflowed());
     assert!(kani_ghost::parity(id) == (feature_holds(&x, id) != feature_holds(&y, id)), "mutator toggles exactly the features that changed");
     assert!(board.current_position_hash() == a.hash);
@@ -725,21 +725,21 @@ fn hsetup_any_mutator() {
 #[kani::unwind(8)]
 fn c02_sep_single_feature() {
     let x = any_disjoint();
-    let a = any_aux(kani::any());
+    let a = any_aux(crate::verif_ref::vany());
     let mut board = Board::verif_from_raw(&x, &a);
     let h0 = board.current_position_hash();
-    let which: u8 = kani::any();
+    let which: u8 = crate::verif_ref::vany();
     kani::assume(which < 4);
-    let s: u8 = kani::any();
+    let s: u8 = crate::verif_ref::vany();
     kani::assume(s < 64);
     let sq = Bitboard(rf::bit(s));
     match which {
         0 => {
             // a piece appears on an empty square
-            let k: u8 = kani::any();
+            let k: u8 = crate::verif_ref::vany();
             kani::assume(k < 6);
             kani::assume(x.occ() & sq.0 == 0);
-            board.put(sq, piece_of(k as usize), color(kani::any())).unwrap();
+            board.put(sq, piece_of(k as usize), color(crate::verif_ref::vany())).unwrap();
         }
         1 => {
             // a piece disappears
@@ -748,13 +748,13 @@ fn c02_sep_single_feature() {
         }
         2 => {
             // a different en-passant possibility (including none)
-            let t: u64 = kani::any();
+            let t: u64 = crate::verif_ref::vany();
             kani::assume(rf::at_most_one(t) && t != x.ep);
             board.push_en_passant_target(Bitboard(t));
         }
         _ => {
             // different castling rights
-            let l: u8 = kani::any();
+            let l: u8 = crate::verif_ref::vany();
             kani::assume(l < 16 && x.rights & l != 0);
             board.lose_castle_rights(l);
         }
@@ -768,17 +768,17 @@ fn c02_sep_single_feature() {
 #[kani::unwind(8)]
 fn c02_sep_replace_piece() {
     let x = any_disjoint();
-    let a = any_aux(kani::any());
+    let a = any_aux(crate::verif_ref::vany());
     let mut board = Board::verif_from_raw(&x, &a);
     let h0 = board.current_position_hash();
-    let s: u8 = kani::any();
+    let s: u8 = crate::verif_ref::vany();
     kani::assume(s < 64);
     let sq = Bitboard(rf::bit(s));
     kani::assume(x.occ() & sq.0 != 0);
     let old = board.remove(sq).unwrap();
-    let k: u8 = kani::any();
+    let k: u8 = crate::verif_ref::vany();
     kani::assume(k < 6);
-    let c = color(kani::any());
+    let c = color(crate::verif_ref::vany());
     kani::assume((piece_of(k as usize), c) != old);
     board.put(sq, piece_of(k as usize), c).unwrap();
     assert!(board.current_position_hash() != h0);
